@@ -748,10 +748,10 @@ def catalogue(tier, two_procs):
 
 QUICK_22_STRIDE = 16
 QUICK_22_STRIDE_2PROC = 3
-MAX_EXEC = dict(quick=6000, thorough=200000)
+MAX_EXEC = dict(quick=6000, thorough=57070)
 
 SUBCHECKS = [
-    SubCheck('schedules', schedules_strategy, run_schedules, quick=3000, thorough=200000),
+    SubCheck('schedules', schedules_strategy, run_schedules, quick=3000, thorough=28540),
     SubCheck('exhaustive_1proc', None, run_exhaustive, quick=0, thorough=0, enumerate=lambda tier: catalogue(tier, False),
              describe='DFS over all schedules of every 2-thread program with <=2 requests per thread on one file, one process'),
     SubCheck('exhaustive_2proc', None, run_exhaustive, quick=0, thorough=0, enumerate=lambda tier: catalogue(tier, True),
